@@ -46,11 +46,17 @@ fn judge_crash(sc: &Scenario, ex: &mut Exec, k: u64) -> Option<Violation> {
             }
         }
     }
-    // (iii) follow-up battery by a fresh process
+    // (iii) follow-up battery by a fresh process.  For every other crash
+    // point the battery runs only after the age-based reclaim below, so that
+    // debris sharing its inode with a published entry (a crash between link
+    // and unlink) is still shared when maintenance reclaims it.
+    let battery_first = k % 2 == 1;
     let before = ex.w.fs_clone();
     let mark = ex.w.trace_len();
-    if let Some((c, m)) = battery(sc, &mut ex.w, 1).into_iter().next() {
-        return mk(c, format!("after a crash before call {}: {}", k, m));
+    if battery_first {
+        if let Some((c, m)) = battery(sc, &mut ex.w, 1).into_iter().next() {
+            return mk(c, format!("after a crash before call {}: {}", k, m));
+        }
     }
     if let Some((c, m)) = force_maintenance(sc, &mut ex.w, 1, 1).into_iter().next() {
         return mk(c, m);
@@ -87,9 +93,132 @@ fn judge_crash(sc: &Scenario, ex: &mut Exec, k: u64) -> Option<Violation> {
         }
     }
     if let Some((c, m)) = tree_validity(sc, &ex.w).into_iter().next() {
-        return mk(c, format!("after the follow-up operations: {}", m));
+        return mk(c, format!("after the follow-up operations (incl. maintenance 59 min and 3 h after the crash): {}", m));
+    }
+    if !battery_first {
+        if let Some((c, m)) = battery(sc, &mut ex.w, 1).into_iter().next() {
+            return mk(c, format!("3 hours after a crash before call {}: {}", k, m));
+        }
+        ex.w.leave();
+        if let Some((c, m)) = tree_validity(sc, &ex.w).into_iter().next() {
+            return mk(c, format!("after the follow-up operations: {}", m));
+        }
     }
     None
+}
+
+/// Second mode: one participant of a 2-3 participant run is killed at a
+/// drawn step while the others carry on; then the tree is judged and a
+/// fresh process uses it.
+fn concurrent_crash(tape: &mut Tape, ctx: &RunCtx) -> RunOut {
+    use crate::conc::*;
+    use kismet_vfs::kernel::DrawPolicy;
+    let cfg = ConcCfg {
+        fronts: vec![0, 1, 2, 2],
+        capacities: vec![0, 1, 2, 1_000_000],
+        max_parts: 3,
+        max_ops: 3,
+        max_keys: 2,
+        ops: vec!["get", "set", "put", "ensure", "gou", "touch"],
+        adversary: false,
+        stale_mode: false,
+        freeze: false,
+        crash: true,
+        fire: vec![DrawPolicy::Const(1), DrawPolicy::FireMix(300), DrawPolicy::Const(u64::MAX)],
+        allow_shared_handle: true,
+        missing_dirs: true,
+        preexisting: true,
+        clock_small: true,
+    };
+    let mut run = run_conc(tape, &cfg, ctx.detail);
+    let mut out = RunOut::default();
+    out.sig = run.sig;
+    out.steps = run.steps;
+    out.sim_ns = run.sim_ns;
+    let crashed = run.results.iter().any(|r| r.crashed);
+    out.count("concurrent_crash_runs", 1);
+    out.count("fault:process_crash", crashed as u64);
+    out.nontrivial = crashed;
+    let mut v: Option<Violation> = None;
+    if run.blocked || run.aborted.is_some() {
+        out.count("aborted_runs", 1);
+        return out;
+    }
+    let dirs = run.w.dirs.clone();
+    let fs = run.w.fs_clone();
+    if let Some((c, m)) = validate_tree(&fs, &dirs).into_iter().next() {
+        v = Some(Violation::new(c, format!("after a participant was killed mid-run: {}", m)));
+    }
+    if v.is_none() {
+        for (p, st, _) in fs.tree("/") {
+            if st.is_dir || p.starts_with(SCRATCH) || p.starts_with("/tmp") || run.fs0.stat(&p).map(|s| s.ino == st.ino).unwrap_or(false) {
+                continue;
+            }
+            match classify(&dirs, &p) {
+                Loc::Key { .. } | Loc::Temp { .. } => {}
+                other => {
+                    v = Some(Violation::new("debris", format!("{} was created outside .kismet_temp ({:?})", p, other)));
+                    break;
+                }
+            }
+        }
+    }
+    if v.is_none() {
+        let inv = run.w.inv.lock().unwrap();
+        if let Some((n, m)) = inv.violations.iter().find(|(n, _)| matches!(*n, "content" | "mode" | "immutable")) {
+            v = Some(Violation::new(n, m.clone()));
+        }
+    }
+    // a fresh process uses the surviving tree
+    if v.is_none() {
+        let fresh_proc = run.w.nprocs - 1;
+        let mut big = dirs.clone();
+        big[0].capacity = 100_000_000;
+        let log: CheckerLog = Default::default();
+        let h = build_handle(&run.main_spec, &big, &log);
+        run.w.script_trigger(fresh_proc, vec![], DrawPolicy::Const(1));
+        let keys = run.keys.clone();
+        for (ki, key) in keys.iter().enumerate() {
+            let seq = [Op::Get, Op::Touch, Op::Put { tag: 7001, plen: 5 }, Op::Get, Op::Set { tag: 7002, plen: 0 }, Op::Get];
+            let mut last_set = false;
+            for op in seq.iter() {
+                let r = run.w.op(fresh_proc, 0, &h, ki, key, op);
+                if r.panic.is_some() || r.out.is_err() {
+                    v = Some(Violation::new("followup-failed", format!("after a participant was killed, {} by a fresh process failed: {}", op.name(), r.short())));
+                    break;
+                }
+                if let Ok(Out::Hit { data, .. }) = &r.out {
+                    let t = parse_value(data).filter(|(k, _)| *k == key.name).map(|x| x.1);
+                    if t.is_none() || (last_set && t != Some(7002)) {
+                        v = Some(Violation::new("followup-wrong", format!("after a participant was killed, a lookup returned {}: {}", describe_bytes(data), r.short())));
+                        break;
+                    }
+                } else if last_set && matches!(op, Op::Get) {
+                    v = Some(Violation::new("followup-wrong", format!("lookup after set missed: {}", r.short())));
+                    break;
+                }
+                last_set = matches!(op, Op::Set { .. });
+            }
+            if v.is_some() {
+                break;
+            }
+        }
+        run.w.leave();
+        if v.is_none() {
+            let fs = run.w.fs_clone();
+            if let Some((c, m)) = validate_tree(&fs, &dirs).into_iter().next() {
+                v = Some(Violation::new(c, format!("after the follow-up operations: {}", m)));
+            }
+        }
+    }
+    if let Some(mut v) = v {
+        v.detail = describe(&run, 150);
+        out.violation = Some(v);
+    }
+    if ctx.detail {
+        out.sample = Some(J::obj().set("mode", "one participant killed while others run").set("scenario", run.desc.clone()).set("results", run.results.iter().map(|r| r.short()).collect::<Vec<_>>()));
+    }
+    out
 }
 
 impl Check for C02 {
@@ -100,15 +229,18 @@ impl Check for C02 {
         "fault_enumeration"
     }
     fn rule(&self) -> String {
-        "scenario = front-end {plain, sharded, stacked over plain, stacked over sharded, optional plain/sharded read-only level} x pre-state {cache directory missing, shard directory missing, key present/absent in the write side, key in the read-only level (promotion), directory over capacity so that maintenance evicts and reprieves (own shard and scripted other shard), stale and fresh debris in .kismet_temp} x operation {set, put, set_temp_file, put_temp_file, ensure, get_or_update x 3, get, touch, temp_dir} x value size x auto_sync, sampled by seed; per scenario EVERY boundary between two consecutive filesystem calls of the operation is taken as the point where the process dies (destructors of the dead process never reach the filesystem, its descriptors are closed). Oracle on each surviving tree: every key-named file is a complete read-only value of its key, all new files are confined to .kismet_temp, the crashed operation's own value (if visible) is unmarked, a fresh process's get/touch/put/set/ensure/forced maintenance all succeed with map semantics, temp files younger than one hour survive maintenance 59 minutes later and debris older than one hour is gone after maintenance 3 hours later. evaluations = crash points executed; non-trivial = the crash landed strictly inside the operation; distinct = (scenario signature, crash index)".to_string()
+        "scenario = front-end {plain, sharded, stacked over plain, stacked over sharded, optional plain/sharded read-only level} x pre-state {cache directory missing, shard directory missing, key present/absent in the write side, key in the read-only level (promotion), directory over capacity so that maintenance evicts and reprieves (own shard and scripted other shard), stale and fresh debris in .kismet_temp} x operation {set, put, set_temp_file, put_temp_file, ensure, get_or_update x 3, get, touch, temp_dir} x value size x auto_sync, sampled by seed; per scenario EVERY boundary between two consecutive filesystem calls of the operation is taken as the point where the process dies (destructors of the dead process never reach the filesystem, its descriptors are closed). Oracle on each surviving tree: every key-named file is a complete read-only value of its key, all new files are confined to .kismet_temp, the crashed operation's own value (if visible) is unmarked, a fresh process's get/touch/put/set/ensure/forced maintenance all succeed with map semantics, temp files younger than one hour survive maintenance 59 minutes later and debris older than one hour is gone after maintenance 3 hours later. A quarter of the runs use a second mode: 2-3 concurrent participants, one of which is killed at a drawn step while the others carry on, followed by the same validity oracle and a fresh process's follow-ups. evaluations = scenarios (counters give the crash points executed); non-trivial = the crash landed strictly inside the operation; distinct = (scenario signature, crash index)".to_string()
     }
     fn runs(&self, tier: Tier) -> u64 {
         match tier {
-            Tier::Quick => 1_200,
-            Tier::Thorough => 60_000,
+            Tier::Quick => 20_000,
+            Tier::Thorough => 900_000,
         }
     }
     fn run(&self, tape: &mut Tape, ctx: &RunCtx) -> RunOut {
+        if tape.draw(4) == 3 {
+            return concurrent_crash(tape, ctx);
+        }
         let mut out = RunOut::default();
         let sc = draw_scenario(tape, &|_| true);
         // fault-free run: count the calls
